@@ -272,7 +272,7 @@ Lemma store_in_cache_inv db exp to_req resp c :
   cache_inv db c ->
   cache_inv db (store_in_cache exp to_req resp c).
 Proof.
-  intros Hans Hinv. unfold store_in_cache.
+  intros Hans Hinv. unfold store_in_cache, store_negative, store_positive.
   set (v := fun p => {| c_expiry := exp;
                         c_hashes := filter (fun h => eqb_bytes (prefix_of h) p) resp |}).
   apply store_negatives_inv with (asked := map prefix_of to_req) (resp := resp); auto.
@@ -695,6 +695,28 @@ Proof. vm_compute. reflexivity. Qed.
 Example db_wf_example : Forall hash_wf Examples.db.
 Proof.
   repeat constructor; vm_compute; try reflexivity; intros; discriminate.
+Qed.
+
+(** Why eviction is an operation *between* checks only: if the cache drops the
+    positive entry in the middle of one [storeInCache] (a cache too small for
+    one answer), the negative phase stores an empty entry for a prefix under
+    which the database has a hash, and the next check is answered "clean"
+    from the cache. *)
+Example midstore_eviction_poisons :
+  let hs := [Examples.sha Examples.evil] in
+  let c := store_negative 3650 hs
+             (cdel (prefix_of (Examples.sha Examples.evil)) (store_positive 3650 hs [])) in
+  answer_ok Examples.db (map prefix_of hs) hs /\
+  o_blocked (snd (check Examples.sha Examples.pubsuf Examples.sfx Examples.ct
+                    (db_service Examples.db) 0 Examples.evil c)) = false /\
+  o_question (snd (check Examples.sha Examples.pubsuf Examples.sfx Examples.ct
+                    (db_service Examples.db) 0 Examples.evil c)) = None /\
+  db_verdict Examples.sha Examples.pubsuf Examples.db Examples.evil = true.
+Proof.
+  cbv zeta. split; [|vm_compute; auto].
+  intros h. unfold Examples.db. cbn [In map]. split.
+  - intros [<-|[]]. auto.
+  - intros [[<-|[]] _]. auto.
 Qed.
 
 (** A history that exercises: a clean twin storing a positive entry, a hit
